@@ -26,6 +26,8 @@ from cell_type_mapper.utils.multiprocessing_utils import (
 
 import cell_type_mapper.utils.distance_utils as distance_utils
 
+import cell_type_mapper.utils.verif_hooks as verif_hooks
+
 from cell_type_mapper.type_assignment.utils import (
     reconcile_taxonomy_and_markers)
 
@@ -297,6 +299,11 @@ def _run_type_assignment_on_h5ad_worker(
         output_list,
         output_lock,
         results_output_path=None):
+
+    if verif_hooks.enabled():
+        verif_hooks.emit(
+            'chunk', r0=int(r0), r1=int(r1),
+            cells=[str(c) for c in query_cell_names])
 
     assignment = run_type_assignment(
         full_query_gene_data=query_cell_chunk,
@@ -642,6 +649,14 @@ def _run_type_assignment(
         parent_node=parent_node)
     update_timer("assemble", t, timers)
 
+    if verif_hooks.enabled():
+        verif_hooks.emit(
+            'node',
+            parent=parent_node,
+            genes=list(query_data['query_data'].gene_identifiers),
+            n_cells=int(query_data['query_data'].n_cells),
+            bootstrap_factor=float(bootstrap_factor))
+
     t = time.time()
     (result,
      bootstrapping_probability,
@@ -830,6 +845,8 @@ def tally_votes(
     for i_iteration in range(bootstrap_iteration):
         t2 = time.time()
         chosen_idx = rng.choice(marker_idx, n_bootstrap, replace=False)
+        if verif_hooks.enabled():
+            verif_hooks.emit('subset', idx=chosen_idx)
         chosen_idx = np.sort(chosen_idx)
         bootstrap_query = query_gene_data[:, chosen_idx]
         bootstrap_reference = reference_gene_data[:, chosen_idx]
